@@ -1154,8 +1154,12 @@ def garbage_case(draw, tier):
         elif kind == "envelope":
             it = draw(envelope_tree((node_ids, own)))
         elif kind == "request":
+            # long unknown method names made of multi-byte characters at every alignment: the error reply echoes the name
+            # and has to cut it somewhere (and the reply must still be a well-formed datagram)
+            mb = draw(st.sampled_from(["é", "€", "\U0001F600", "ñ"]))
+            long_mb = ("a" * draw(st.integers(0, 4)) + mb * draw(st.sampled_from([130, 200, 260, 300, 600]))).encode()
             method = draw(st.sampled_from([b"ping", b"store", b"store", b"findNode", b"findValue", b"findValue",
-                                           b"unknown", b"x" * 1300, b"x" * 2000, "é".encode(), b"\xff"]))
+                                           b"unknown", b"x" * 1300, b"x" * 2000, "é".encode(), b"\xff", long_mb, long_mb]))
             args = draw(request_args(method if method in (b"ping", b"store", b"findNode", b"findValue")
                                      else b"findNode"))
             env = {"d": [[{"i": 0}, {"i": 0}], [{"i": 1}, {"b": draw(rpc_ids)}], [{"i": 2}, {"b": draw(node_ids)}],
